@@ -71,7 +71,7 @@ PROP = dict(
     family="c12", session_start=None, trivial=c12_nontrivial, shrink=False, confirm_rerun=True, level="proof",
     n=dict(quick=176, thorough=560), timeout=1500,
     exhaustive=dict(quick=False, thorough=False),
-    rule='one record = one call of an entry point against a scripted panel with 1-3 connections, every connection judged by what the panel replies on THAT connection. (A) reconnects: the reconnecting client probes every new connection (the panel drops the earlier ones: binary after an ack, ASCII by RDY, ASCII by silence for the whole window, ErrorMsg + close), the stand-alone detector is called once per connection; on the 2nd / 3rd connection reply class (ack, RDY, map=, ErrorMsg=) x delay {0.6, 1.2, 1.8 s} (thorough: full cross product with delay 0) after every kind of earlier connection, both entry points. (B) one probe exchange: the reply classes the property names - ack frame, RDY (alone / with more behind it), map= (one / several lines), and for the client ErrorMsg= (4 forms) and other text (3) - x delays {0, 0.6, 1.2, 1.8 s} (thorough: 8 delays up to 1.8 s; nothing is scheduled within 100 ms of the end of the window, the monitor does not judge within 50 ms of it) x {followed by close or not} x {ConnectToPanel, AutoDetectIfPanelEncodingIsBinary}; silence for the whole window (then nothing / late ack / late RDY / close). Few records are outside the domain (compared with the model, not judged, never near the end of the window): replies without a fixed verdict (other well-formed frame, short / mismatching binary, two frames; text replies to the detector), replies reaching the probe Read in two segments 300 ms apart (B:skip-reply-in-several-segments), close inside the window. A connection that is neither compared (within 300 ms of the end of the window the monitor decides alone: B:tight-margin) nor judged is tagged B:unchecked by the driver and such a record is not counted as non-trivial (none occurs in the generated scripts unless a delay slips by > 150 ms); otherwise non-trivial always; distinct = distinct record text',
+    rule='one record = one call of an entry point against a scripted panel with 1-3 connections, every connection judged by what the panel replies on THAT connection. (A) reconnects: the reconnecting client probes every new connection (the panel drops the earlier ones: binary after an ack, ASCII by RDY, ASCII by silence for the whole window, ErrorMsg + close), the stand-alone detector is called once per connection; on the 2nd / 3rd connection reply class (ack, RDY, map=, ErrorMsg=) x delay {0.6, 1.2, 1.8 s} (thorough: full cross product with delay 0) after every kind of earlier connection, both entry points. (B) one probe exchange: the reply classes the property names - ack frame, RDY (alone / with more behind it), map= (one / several lines), and for the client ErrorMsg= (4 forms) and other text (3) - x delays {0, 0.6, 1.2, 1.8 s} (thorough: 8 delays up to 1.8 s; nothing is scheduled within 100 ms of the end of the window, the monitor does not judge within 50 ms of it) x {followed by close or not} x {ConnectToPanel, AutoDetectIfPanelEncodingIsBinary}; silence for the whole window (then nothing / late ack / late RDY / close). Few records are outside the domain (compared with the model, not judged, never near the end of the window): replies without a fixed verdict (other well-formed frame, short / mismatching binary, two frames; text replies to the detector), replies reaching the probe Read in two segments 300 ms apart (B:skip-reply-in-several-segments), close inside the window. A connection that is neither compared (within 300 ms of the end of the window the monitor decides alone: B:tight-margin) nor judged is tagged B:unchecked by the driver and such a record is not counted as non-trivial (none occurs in the generated scripts unless a delay slips by > 150 ms); otherwise non-trivial always; distinct = distinct record text; the named replies (ack, RDY, map, ErrorMsg, ack carrying an event) with traffic of the negotiated mode 40 ms behind them (empty message + a 4095/4096/9000-byte line (thorough 65535) or a 4092/65536-byte frame), reply delay 0 and 1.2 s',
     trusted_base=["io.ReadFull, bufio.ReadString, strings.TrimSpace (Go's unicode.IsSpace set; model: Base/Bytes.trimSpace), net.Conn read deadlines, Go channels and proto.Marshal/Unmarshal enter the model by their contracts (opaque where possible)",
                   "scripted TCP panel on loopback (harness/netpanel.go): what it sent and when is taken from its own trace"],
     assumptions=["atomicity of the LTS labels (one label = one Go statement group; a conn.Write of one chunk is one label)", "time in the LTS is urgent (at or after an armed read deadline only the timeout can happen); a conn.Write error other than a timeout is sticky; a writer whose quit channel is closed has returned before the retry period ends", "timing clauses hold with a tolerance of 400 ms; scripts keep >= 300 ms from every deadline (others are tagged tight-margin and judged by the monitor alone)"],
